@@ -59,6 +59,12 @@ def step (s : St) (w : List String) : St × String :=
     match cut.toNat?, zt.toNat? with
     | some cut, some zt => (s, showScan (scan (s.file.take cut ++ zeros zt)))
     | _, _ => (s, "bad-op")
+  | ["ctxproto"] =>
+    -- the context.data protocol the model is about: `ctxCrash` never changes `main` except by the rename,
+    -- and `ctxLoad` never looks at the temp file
+    let fs : CtxFs := ⟨some [1], none⟩
+    let atomic := (ctxLoad (ctxCrash fs [2, 3] (.tmpWritten 1)) == some [1]) && (ctxLoad (ctxCrash fs [2, 3] .renamed) == some [2, 3])
+    (s, if atomic then "rename tmp-ignored" else "inplace")
   | ["scanlegacy", cut, zt] =>
     match cut.toNat?, zt.toNat? with
     | some cut, some zt => (s, showScan (scanLegacy (s.file.take cut ++ zeros zt)))
